@@ -51,6 +51,8 @@ pub struct Ctx {
     pub current: Arc<Mutex<Option<Scenario>>>,
     /// true while shrinking / replaying: do not record samples
     pub quiet: bool,
+    /// single-run triage mode: every scenario is written here before it executes
+    pub dump_path: Option<String>,
 }
 
 impl Ctx {
@@ -61,12 +63,16 @@ impl Ctx {
             run_index: 0,
             current: Arc::new(Mutex::new(None)),
             quiet: false,
+            dump_path: None,
         }
     }
     /// Announce the scenario about to be executed (hang backstop + samples).
     pub fn begin(&mut self, sc: &Scenario) {
         if let Ok(mut g) = self.current.lock() {
             *g = Some(sc.clone());
+        }
+        if let Some(p) = &self.dump_path {
+            let _ = std::fs::write(p, sc.to_json(false).to_string());
         }
         if !self.quiet && self.stats.wants_sample(self.run_index) {
             self.stats.sample(self.run_index, sc);
@@ -169,6 +175,12 @@ pub struct CheckOpts {
     pub verif_dir: String,
     pub runs_override: Option<u64>,
     pub child: bool,
+    /// execute exactly this run index (triage after the process died)
+    pub only_run: Option<u64>,
+    /// file in which every worker records the run index it is about to execute
+    pub journal: Option<String>,
+    /// with only_run: file receiving every scenario before it executes
+    pub dump: Option<String>,
 }
 
 pub struct CheckResult {
@@ -205,8 +217,19 @@ pub fn check(prop: &'static dyn Property, o: &CheckOpts) -> CheckResult {
             };
         }
     };
-    let runs = o.runs_override.unwrap_or_else(|| prop.runs(o.tier));
-    let next = AtomicU64::new(0);
+    let mut runs = o.runs_override.unwrap_or_else(|| prop.runs(o.tier));
+    let mut first = 0u64;
+    if let Some(i) = o.only_run {
+        first = i;
+        runs = i + 1;
+    }
+    let journal: Option<std::fs::File> = o.journal.as_ref().and_then(|p| {
+        std::fs::OpenOptions::new().create(true).write(true).truncate(true).open(p).ok()
+    });
+    let journal = &journal;
+    let only_run = o.only_run.is_some();
+    let dump = &o.dump;
+    let next = AtomicU64::new(first);
     let stop_at = AtomicU64::new(u64::MAX);
     let timed_out = AtomicBool::new(false);
     let found: Mutex<Vec<Found>> = Mutex::new(Vec::new());
@@ -237,14 +260,15 @@ pub fn check(prop: &'static dyn Property, o: &CheckOpts) -> CheckResult {
             let seed = o.seed;
             handles.push(
                 std::thread::Builder::new()
-                    .stack_size(64 << 20)
+                    .stack_size(8 << 20)
                     .spawn_scoped(s, move || {
                         crate::heap::set_worker(w);
                         let mut ctx = Ctx::new(tier);
                         // share the "current scenario" slot with the supervisor
                         ctx.current = beat.1.clone();
+                        ctx.dump_path = dump.clone();
                         // one-off deterministic enumeration is done by worker 0
-                        if w == 0 {
+                        if w == 0 && !only_run {
                             ctx.run_index = u64::MAX;
                             let vs = prop.enumerate(&mut ctx);
                             for v in vs {
@@ -272,6 +296,10 @@ pub fn check(prop: &'static dyn Property, o: &CheckOpts) -> CheckResult {
                                 break;
                             }
                             beat.0.store(i + 1, Ordering::Relaxed);
+                            if let Some(j) = journal {
+                                use std::os::unix::fs::FileExt;
+                                let _ = j.write_all_at(&(i + 1).to_le_bytes(), (w * 8) as u64);
+                            }
                             ctx.run_index = i;
                             let mut tape = Tape::random(run_seed(seed, id, i));
                             let vs = match crate::env::guarded(|| prop.run(&mut tape, &mut ctx)) {
@@ -444,7 +472,7 @@ pub fn check(prop: &'static dyn Property, o: &CheckOpts) -> CheckResult {
             let (tx, rx) = std::sync::mpsc::channel();
             let (tape0, v0, tier) = (first.tape.clone(), first.v.clone(), o.tier);
             std::thread::Builder::new()
-                .stack_size(64 << 20)
+                .stack_size(8 << 20)
                 .spawn(move || {
                     let r = shrink(prop, tier, tape0, v0, 20.0);
                     let _ = tx.send(r);
@@ -795,11 +823,40 @@ pub fn replay_file(props: &[&'static dyn Property], path: &str, quiet: bool) -> 
         .and_then(|v| v.get("locus"))
         .and_then(|x| x.as_str())
         .unwrap_or("");
+    // a case that kills the process is re-executed in a child process
+    if want_class == "process_death" && std::env::var("LZSIM_REPLAY_INNER").is_err() {
+        let exe = std::env::current_exe()
+            .map(|e| e.to_string_lossy().replace(" (deleted)", ""))
+            .unwrap_or_else(|_| "lzsim".into());
+        let st = std::process::Command::new(&exe)
+            .args(["replay", path, "--quiet"])
+            .env("LZSIM_REPLAY_INNER", "1")
+            .status();
+        return match st.map(|s| s.code()) {
+            Ok(Some(0)) | Ok(Some(1)) => {
+                if !quiet {
+                    println!("replay: property={} scenario passes (the process survives)", pid);
+                }
+                0
+            }
+            Ok(Some(2)) | Err(_) => {
+                eprintln!("HARNESS-ERROR: replay child failed");
+                2
+            }
+            Ok(_) => {
+                if !quiet {
+                    println!("replay: property={} class=process_death: the process executing the case died again", pid);
+                    println!("VIOLATION property={} replay={}", pid, path);
+                }
+                1
+            }
+        };
+    }
     // run in a thread so that an allocation bomb (which parks the thread) is seen
     let (tx, rx) = std::sync::mpsc::channel();
     let sc2 = sc.clone();
     std::thread::Builder::new()
-        .stack_size(64 << 20)
+        .stack_size(8 << 20)
         .spawn(move || {
             let mut ctx = Ctx::new(Tier::Quick);
             ctx.quiet = true;
